@@ -8,10 +8,10 @@ use chumsky::error::Rich;
 use chumsky::pratt::{self, infix, left, postfix, prefix, right, Operator};
 use chumsky::prelude::*;
 
-use crate::ast::*;
-use crate::build::*;
-use crate::run::{run_one, BASE};
-use crate::val::*;
+use chumsky_verif_harness::ast::*;
+use chumsky_verif_harness::build::*;
+use chumsky_verif_harness::run::{run_one, BASE};
+use chumsky_verif_harness::val::*;
 
 type E<'src> = Rich<'src, char, Sp>;
 type BOp<'src> = pratt::Boxed<'src, 'src, &'src str, Val, Ex<E<'src>>>;
@@ -79,7 +79,7 @@ fn build_table<'src>(
 }
 
 pub fn main() {
-    crate::run::install_panic_hook();
+    chumsky_verif_harness::run::install_panic_hook();
     let stdin = std::io::stdin();
     let stdout = std::io::stdout();
     let mut w = std::io::BufWriter::new(stdout.lock());
